@@ -253,6 +253,11 @@ def r5(R5, cfg, F):
             table[where] = arm[0] if arm else '?'
         ok = table == {'Some': 'init', 'None': 'uninit'}
     R5.check(ok, cfg, b.path, 'drop:Some->init,None->uninit', 'Drop must drop the `init` arm when the cell is initialised and the `uninit` arm otherwise; it does %s' % table, b.loc(), table=table)
+    if ok:
+        # ... and always: no path returns without having dropped one of the two (whatever else it tests: whether the *seed*
+        # type has drop glue says nothing about the value the cell holds once it is initialised)
+        skip = b.reachable([0], removed_blocks=[d.bb for d in drops]) & set(b.return_blocks())
+        R5.check(not skip, cfg, b.path, 'drop:on-every-path', 'OnceInitCell::drop returns on some path without dropping either arm of the union: what the cell holds there is leaked', b.loc())
 
 
 def r6(R6, cfg, F):
